@@ -754,6 +754,23 @@ def check(ctx):
     ctx.inst('R9', ff, 'finish', 'self.cf.remove_port_callback(self.port, self._new_packet_cb)' in body and body[-1] == 'self.finished_callback()',
              'finishing unregisters the packet callback and calls the completion callback last')
     fetcher_unsubscribe_rules(ctx, 'R9')
+    # ... and the memory stage of the connection sequence forgets its continuation when the link drops: a late reply of the lost
+    # session must not start the parameter download of the new one (while its log table is still being fetched)
+    MEMP = 'cflib/crazyflie/mem/__init__.py'
+    memk = m.cls(MEMP, 'Memory')
+
+    def clears(fn_, attr, depth=2):
+        for s_ in fn_.node.body:
+            if isinstance(s_, ast.Assign) and any(norm(t_) == attr for t_ in s_.targets) and isinstance(s_.value, ast.Constant) and s_.value.value is None:
+                return True
+            if depth and isinstance(s_, ast.Expr) and isinstance(s_.value, ast.Call) and isinstance(s_.value.func, ast.Attribute) and norm(s_.value.func.value) == 'self' and \
+                    memk.has(s_.value.func.attr) and clears(memk.method(s_.value.func.attr), attr, depth - 1):
+                return True
+        return False
+    mdis = memk.method('_disconnected')
+    for attr in ('self._refresh_callback', 'self._refresh_failed_callback'):
+        ctx.inst('R9', mdis, 'link-loss-forgets:' + attr.split('.')[-1], clears(mdis, attr), 'Memory._disconnected sets %s to None on every path (directly or through the helpers it '
+                 'calls unconditionally): a stale memory-count reply otherwise continues the connection sequence of the next session' % attr)
     from .c07 import caller_rules, removal_predicate_rules
     caller_rules(ctx, 'R9')              # ... and its `disconnected` hook is reached although an earlier listener un-registers itself during the call (shared with C07.R2)
     removal_predicate_rules(ctx, 'R9')   # ... and the un-registration of its packet callback (a bound method) finds it: == not `is` (shared with C07.R4)
